@@ -147,6 +147,11 @@ func str(m map[string]interface{}, k string) (string, bool) {
 	return v, ok
 }
 
+// digestLengths: what the algorithms produce (multicodec table: sha2-256, sha2-512, sha3-512, sha3-384, sha3-256).
+var digestLengths = map[uint64]int{asm.SHA256: 32, asm.SHA512: 64, 0x14: 64, 0x15: 48, 0x16: 32}
+
+const suffixFormRule = "didSuffix is not a well-formed multihash"
+
 // hashRule: well-formed multihash of an allowed algorithm within the maximum hash length.
 func hashRule(p Params, field, mh string) string {
 	if uint(len(mh)) > p.HashLength {
@@ -156,7 +161,7 @@ func hashRule(p Params, field, mh string) string {
 	if !ok {
 		return field + " is not a well-formed multihash"
 	}
-	if want := map[uint64]int{asm.SHA256: 32, asm.SHA512: 64}[code]; want != 0 && len(digest) != want {
+	if want := digestLengths[code]; want != 0 && len(digest) != want {
 		return fmt.Sprintf("%s carries a digest of %d bytes, its algorithm produces %d", field, len(digest), want)
 	}
 	for _, c := range p.Hashes {
@@ -169,7 +174,7 @@ func hashRule(p Params, field, mh string) string {
 
 // broken returns the first listed rule that the (accepted) request violates, or "". Requests the reference
 // parser cannot read (duplicate member names, which encoding/json tolerates) are not judged.
-func broken(req []byte, p Params) string {
+func broken(req []byte, p Params) (out string) {
 	if uint(len(req)) > p.OperationSize {
 		return fmt.Sprintf("request size %d exceeds maxOperationSize %d", len(req), p.OperationSize)
 	}
@@ -200,9 +205,21 @@ func broken(req []byte, p Params) string {
 		}
 		// the DID suffix is the hash of the create's suffix data; it may stem from an algorithm of an earlier protocol
 		// version, so only the length limit is applied to it here
-		if ds, _ := vstr(m, "didSuffix"); uint(len(ds)) > p.HashLength {
+		ds, _ := vstr(m, "didSuffix")
+		if uint(len(ds)) > p.HashLength {
 			return fmt.Sprintf("didSuffix longer (%d) than maxOperationHashLength %d", len(ds), p.HashLength)
 		}
+		// ... and the form: the one base64url spelling of a multihash whose digest has its algorithm's length (judged
+		// after every other rule, below)
+		suffixForm := ""
+		if code, digest, ok := asm.DecodeMultihash(ds); !ok || (digestLengths[code] != 0 && len(digest) != digestLengths[code]) {
+			suffixForm = suffixFormRule
+		}
+		defer func() {
+			if out == "" {
+				out = suffixForm
+			}
+		}()
 		sdat, _ := vstr(m, "signedData")
 		parts := strings.Split(sdat, ".")
 		if len(parts) != 3 {
@@ -321,6 +338,14 @@ func broken(req []byte, p Params) string {
 	return ""
 }
 
+// sigOf: the signature a violation is filed under. The DID suffix form has its own (an open known finding).
+func sigOf(kind, msg, deflt string) string {
+	if kind == "C10/accepted-violating-rule" && strings.Contains(msg, suffixFormRule) {
+		return "C10/did-suffix-not-a-multihash"
+	}
+	return deflt
+}
+
 func accepts(req []byte, p Params) (ok bool, errText, panicText string) {
 	v := wire.Build(p.protocol(), wire.Deps{})
 	var err error
@@ -398,7 +423,7 @@ func buildReq(s reqSpec, tamper func(req map[string]interface{}, signed *asm.Sig
 		}
 		return asm.BytesOf(req)
 	}
-	sg := &asm.Signed{Type: s.typ, Suffix: "EiAsuffix0000000000000000000000000000000000000", Code: s.code, RevealKey: k(2), From: s.from, Until: s.until}
+	sg := &asm.Signed{Type: s.typ, Suffix: asm.Multihash(s.code, []byte("c10 suffix data")), Code: s.code, RevealKey: k(2), From: s.from, Until: s.until}
 	if s.kid != "" {
 		sg.Header = asm.Header(k(2), s.kid)
 	}
@@ -433,7 +458,7 @@ func drawSpec(t *rapid.T) reqSpec {
 // mutation of one field of a valid request (re-signing nothing: intake does not verify signatures).
 func mutations() []string {
 	return []string{"none", "hash-other-alg", "hash-malformed", "hash-too-long", "hash-unknown-code", "alg-disabled", "crv-disabled", "nonce-wrong-size", "patch-disabled", "reveal-mismatch",
-		"alg-case-variant", "crv-case-variant", "short-digest", "reveal-of-other-key", "reveal-of-other-key-signed-own", "reveal-respelled", "patch-unknown-action", "delta-missing", "signed-data-missing", "did-suffix-over-long", "hash-respelled", "alg-of-another-key-type", "digest-length"}
+		"alg-case-variant", "crv-case-variant", "short-digest", "reveal-of-other-key", "reveal-of-other-key-signed-own", "reveal-respelled", "patch-unknown-action", "delta-missing", "signed-data-missing", "did-suffix-over-long", "hash-respelled", "alg-of-another-key-type", "digest-length", "did-suffix-not-a-multihash"}
 }
 
 func mutate(t *rapid.T, s reqSpec, mut string, p *Params) []byte {
@@ -518,12 +543,19 @@ func mutate(t *rapid.T, s reqSpec, mut string, p *Params) []byte {
 			}
 		case "digest-length":
 			// well-formed framing around a digest of another length than the algorithm produces (0, 1, 31, 33, 63, 65 bytes)
+			// (one time in four under sha3-256, enabled for the occasion: an algorithm the protocol may allow although the
+			// library does not compute it itself)
+			code := s.code
+			if rapid.IntRange(0, 3).Draw(t, "digestUnderSha3") == 0 {
+				code = 0x16
+				p.Hashes = append(append([]uint{}, p.Hashes...), 0x16)
+			}
 			pickHashField(req, sg, c, func(string) string {
 				n := rapid.SampledFrom([]int{0, 1, 31, 33, 63, 65}).Draw(t, "digestLen")
-				if (s.code == asm.SHA256 && n == 32) || (s.code == asm.SHA512 && n == 64) {
+				if digestLengths[code] == n {
 					n++
 				}
-				return asm.B64(asm.FrameMultihash(s.code, make([]byte, n)))
+				return asm.B64(asm.FrameMultihash(code, make([]byte, n)))
 			})
 		case "alg-disabled":
 			p.SigAlgs = without(p.SigAlgs, s.kt.Alg())
@@ -568,6 +600,16 @@ func mutate(t *rapid.T, s reqSpec, mut string, p *Params) []byte {
 				req["revealValue"] = asm.Reveal(keys.Get(s.kt, "c10", 9), s.code)
 				own := asm.Reveal(sg.RevealKey, s.code)
 				resign(req, sg, func(signed map[string]interface{}, _ map[string]interface{}) { signed["revealValue"] = own })
+			}
+		case "did-suffix-not-a-multihash":
+			// within the length limit, but not a hash: text, base64url of something else, a multihash without digest or
+			// with a digest of another length, another spelling of the genuine suffix
+			if ds, ok := req["didSuffix"].(string); ok {
+				odd := rapid.SampledFrom([]string{"!!! this is no hash !!!", "abc", "EgA", "EiA", asm.B64(asm.FrameMultihash(asm.SHA256, make([]byte, 31))), asm.B64(asm.FrameMultihash(asm.SHA512, make([]byte, 32))), ds + "\n", "did-suffix"}).Draw(t, "oddSuffix")
+				req["didSuffix"] = odd
+				if sg != nil && sg.Type == "deactivate" {
+					resign(req, sg, func(signed map[string]interface{}, _ map[string]interface{}) { signed["didSuffix"] = odd })
+				}
 			}
 		case "did-suffix-over-long":
 			// the DID suffix of an update / recover / deactivate is a hash field too: longer than the maximum hash length
@@ -639,7 +681,7 @@ func TestAcceptedImpliesRules(t *testing.T) {
 			return map[string]interface{}{"request": ev.Trunc(string(req), 300), "mutation": mut, "accepted": ok}
 		})
 		if kind != "" {
-			ev.Fail(t, chkImplies, kind, kind+"/"+mut, c, "%s", msg)
+			ev.Fail(t, chkImplies, kind, sigOf(kind, msg, kind+"/"+mut), c, "%s", msg)
 		}
 	})
 }
@@ -774,7 +816,7 @@ func TestLimitsExactAndIndependent(t *testing.T) {
 				return map[string]interface{}{"limit": limit, "value": v, "measured": exact, "want": want, "type": s.typ, "requestBytes": len(req)}
 			})
 			if kind != "" {
-				ev.Fail(t, chkLimits, kind, kind+"/"+limit, c, "%s", msg)
+				ev.Fail(t, chkLimits, kind, sigOf(kind, msg, kind+"/"+limit), c, "%s", msg)
 			}
 		}
 		run(exact, "accept", "at the limit")
@@ -932,7 +974,7 @@ func TestEntryPointsNeverPanic(t *testing.T) {
 			ev.Fail(t, chkPanic, "C10/panic", "C10/panic/"+strings.SplitN(pk, " ", 2)[0], c, "%s on %q", pk, ev.Trunc(string(b), 400))
 		}
 		if k2 != "" {
-			ev.Fail(t, chkPanic, k2, k2, c, "%s", msg)
+			ev.Fail(t, chkPanic, k2, sigOf(k2, msg, k2), c, "%s", msg)
 		}
 	})
 }
@@ -967,7 +1009,7 @@ func TestHandlerAgreesWithParser(t *testing.T) {
 		}
 		if err == nil {
 			if r := broken(req, p); r != "" {
-				ev.Fail(t, chk, "C10/accepted-violating-rule", "C10/handler-rule/"+mut, &Case{Request: req, P: p, Note: "handler " + mut}, "ProcessOperation accepted a request violating a rule: %s", r)
+				ev.Fail(t, chk, "C10/accepted-violating-rule", sigOf("C10/accepted-violating-rule", r, "C10/handler-rule/"+mut), &Case{Request: req, P: p, Note: "handler " + mut}, "ProcessOperation accepted a request violating a rule: %s", r)
 			}
 		}
 	})
@@ -993,7 +1035,7 @@ func FuzzParser(f *testing.F) {
 			ev.Fail(t, chkFuzz, "C10/panic", "C10/panic/fuzz", c, "%s", pk)
 		}
 		if kind, msg, _ := evalCase(c); kind != "" {
-			ev.Fail(t, chkFuzz, kind, kind+"/fuzz", c, "%s", msg)
+			ev.Fail(t, chkFuzz, kind, sigOf(kind, msg, kind+"/fuzz"), c, "%s", msg)
 		}
 	})
 }
